@@ -114,6 +114,11 @@ var c15Forms = []string{
 	"let $a = (let $x = a, $y = b in [$x, $y]), $b = (let $x = c, $y = d in [$x, $y]) in [$a, $b]",
 	"let $a = a, $b = (let $a = b in $a), $c = (let $a = c in $a) in [$a, $b, $c]",
 	"{x: let $a = (let $t = a in $t), $b = b in [$a, $b], y: let $a = a, $b = (let $t = b in $t) in [$a, $b]}",
+	// an empty object of the document (or of a let, or of a literal) reaches merge without a copy while
+	// a sibling member reads the same object: the outcome must not depend on which member is evaluated first
+	"{merged: merge(eo && {x: 'y'}, o1), n: length(eo)}", "{n: length(eo), merged: merge(eo || {x: 'y'}, o1), k: keys(eo)}", "{a: merge(eo, o1), b: merge(eo, o2), c: eo}", "{m: merge(not_null(eo), o1), e: eo, l: length(eo)}",
+	"let $e = from_items(`[]`) in {merged: merge($e && {x: 'y'}, o1), n: length($e)}", "let $e = eo in {merged: merge($e, {x: 'y'}), n: length($e), again: merge($e, {z: `1`})}", "{m: merge(`{}` && {x: 'y'}, o1), n: length(`{}`)}",
+	"{m1: merge(o1 && eo, {p: `1`}), m2: merge(o2 && eo, {q: `2`}), e: eo}", "[merge(eo, {a: `1`}), eo, merge(eo, {b: `2`}), eo]", "{x: merge([eo][0], o1), y: [eo][0], z: length([eo][0])}", "{g: group_by(rs, &k), m: merge(group_by(rs, &k), {zz: `1`}), n: length(group_by(rs, &k))}",
 	"merge(@, {a: `1`}, {a: `2`})", "merge({a: `1`, b: `1`}, {b: `2`, c: `2`}, {c: `3`, a: `3`})", "merge(a, b, c)", "merge(o1, o2, o1)", "merge(o2, o1)",
 	"group_by(rs, &k)", "group_by(rs, &k).*", "group_by(rs, &k) | keys(@) | sort(@)", "group_by(rs, &to_string(n))", "from_items(ps)", "from_items(items(o1))", "from_items(`[[\"a\",1],[\"b\",2],[\"a\",3]]`)", "from_items(zip(keys(o1), values(o1)))",
 	"sort(keys(o1))", "sort(values(o2))", "length(keys(@))", "sort_by(items(o1), &[0])", "sort_by(rs, &k)[*].id", "sort_by(rs, &n)[*].id", "max_by(rs, &n).id", "min_by(rs, &n).id", "rs[*].[id, k]", "rs[?k == 'x'].id",
@@ -149,6 +154,7 @@ func c15Doc(r *gen.R) *ref.Obj {
 	}
 	o.Set("rs", rs)
 	o.Set("ps", ps)
+	o.Set("eo", ref.NewObj())
 	return o
 }
 
